@@ -21,7 +21,7 @@
    is negative for z < eta, and the sample quantile no longer minimises it. *)
 From Coq Require Import Reals Lra Psatz List Bool.
 Import ListNotations. Open Scope R_scope.
-From MD Require Import lib.NumpyR spec.Scores theory.Powers theory.Bregman
+From MD Require Import lib.NumpyR lib.NumpyR2 spec.Scores theory.Powers theory.Bregman
   proofs.ScoreProps gen.Gen_ident gen.Gen_scoring bridge.Bridge_scoring.
 
 (* ================================================================== *)
@@ -32,6 +32,10 @@ Definition hes_val (h a y z : R) : R := asym a y z * breg h y z.
 Definition hqs_val (h a y z : R) : R := (ge_ind z y - a) * (Gq h z - Gq h y).
 Definition elem_val (V : R -> R -> R) (eta y z : R) : R :=
   (le_ind eta z - le_ind eta y) * V y eta.
+(* the variant with strict threshold indicators: what the library computes for the
+   quantile and the median since the fix 42d574f *)
+Definition elem_val_strict (V : R -> R -> R) (eta y z : R) : R :=
+  (lt_ind eta z - lt_ind eta y) * V y eta.
 
 (* sum_i w_i * sc y_i c : total weighted score of the constant forecast c *)
 Fixpoint wtotal (sc : R -> R -> R) (S : list (R * R)) (c : R) : R :=
@@ -80,39 +84,52 @@ Proof. intros h a y z Hd. rewrite bridge_hqs. apply hqs_val_is_spec. exact Hd. Q
 
 Theorem elem_val_is_spec : forall eta f a y z v,
   spec_V f a y eta = Ok v ->
-  spec_elem eta f a y z = Ok ((le_ind eta z - le_ind eta y) * v).
+  spec_elem eta f a y z =
+    Ok ((if elem_strict f then lt_ind eta z - lt_ind eta y else le_ind eta z - le_ind eta y) * v).
 Proof.
   intros eta f a y z v H. unfold spec_elem. rewrite H. reflexivity.
 Qed.
 
 Theorem elem_val_is_gen : forall eta f a y z v,
   spec_V f a y eta = Ok v ->
-  gen_elem_spo eta f a y z = Ok ((le_ind eta z - le_ind eta y) * v).
+  gen_elem_spo eta f a y z =
+    Ok ((if elem_strict f then lt_ind eta z - lt_ind eta y else le_ind eta z - le_ind eta y) * v).
 Proof.
   intros eta f a y z v H. rewrite bridge_elem. apply elem_val_is_spec. exact H.
 Qed.
 
-(* the three concrete functionals: the generated elementary score IS elem_val *)
+(* the concrete functionals: the generated elementary score IS elem_val
+   (mean, expectile) resp. elem_val_strict (quantile, median) *)
 Theorem elem_gen_mean : forall eta a y z,
   gen_elem_spo eta Fmean a y z = Ok (elem_val V_mean eta y z).
 Proof.
-  intros eta a y z. unfold elem_val. apply elem_val_is_gen. reflexivity.
+  intros eta a y z. unfold elem_val.
+  apply (elem_val_is_gen eta Fmean a y z (V_mean y eta)). reflexivity.
 Qed.
 
 Theorem elem_gen_expectile : forall eta a y z, 0 < a < 1 ->
   gen_elem_spo eta Fexpectile a y z = Ok (elem_val (V_expectile a) eta y z).
 Proof.
-  intros eta a y z [Ha0 Ha1]. unfold elem_val. apply elem_val_is_gen.
+  intros eta a y z [Ha0 Ha1]. unfold elem_val.
+  apply (elem_val_is_gen eta Fexpectile a y z (V_expectile a y eta)).
   unfold spec_V, level_okb.
   rewrite (proj2 (Rltb_true 0 a) Ha0), (proj2 (Rltb_true a 1) Ha1). reflexivity.
 Qed.
 
 Theorem elem_gen_quantile : forall eta a y z, 0 < a < 1 ->
-  gen_elem_spo eta Fquantile a y z = Ok (elem_val (V_quantile a) eta y z).
+  gen_elem_spo eta Fquantile a y z = Ok (elem_val_strict (V_quantile a) eta y z).
 Proof.
-  intros eta a y z [Ha0 Ha1]. unfold elem_val. apply elem_val_is_gen.
+  intros eta a y z [Ha0 Ha1]. unfold elem_val_strict.
+  apply (elem_val_is_gen eta Fquantile a y z (V_quantile a y eta)).
   unfold spec_V, level_okb.
   rewrite (proj2 (Rltb_true 0 a) Ha0), (proj2 (Rltb_true a 1) Ha1). reflexivity.
+Qed.
+
+Theorem elem_gen_median : forall eta a y z,
+  gen_elem_spo eta Fmedian a y z = Ok (elem_val_strict (V_quantile (1/2)) eta y z).
+Proof.
+  intros eta a y z. unfold elem_val_strict.
+  apply (elem_val_is_gen eta Fmedian a y z (V_quantile (1/2) y eta)). reflexivity.
 Qed.
 
 Lemma elem_val_Se V eta y z : elem_val V eta y z = Se V eta y z.
@@ -490,6 +507,98 @@ Proof.
   rewrite Rltb_2_2, ge_ind_2_2, elem_quantile_witness_value, elem_zero.
   repeat split; lra.
 Qed.
+
+(* ================================================================== *)
+(* 5. C15 for the quantile / median AFTER the library fix 42d574f:      *)
+(*    strict threshold indicators, every eta (data values included)     *)
+
+Theorem elem_strict_zero : forall V eta z, elem_val_strict V eta z z = 0.
+Proof. intros V eta z. unfold elem_val_strict. ring. Qed.
+
+Theorem elem_strict_nonneg_quantile : forall a eta y z,
+  0 < a < 1 -> 0 <= elem_val_strict (V_quantile a) eta y z.
+Proof.
+  intros a eta y z Ha. unfold elem_val_strict, V_quantile.
+  destruct (Rlt_dec eta z) as [Hz|Hz]; destruct (Rlt_dec eta y) as [Hy|Hy].
+  - rewrite (lt_ind_lt _ _ Hz), (lt_ind_lt _ _ Hy). lra.
+  - rewrite (lt_ind_lt _ _ Hz), (lt_ind_ge eta y) by lra. rewrite (ge_ind_ge eta y) by lra. lra.
+  - rewrite (lt_ind_ge eta z) by lra. rewrite (lt_ind_lt _ _ Hy). rewrite (ge_ind_lt eta y) by lra. lra.
+  - rewrite (lt_ind_ge eta z), (lt_ind_ge eta y) by lra. lra.
+Qed.
+
+Definition gS (eta u : R) : R := lt_ind eta u.
+Lemma gS_mono eta t u : t <= u -> gS eta t <= gS eta u.
+Proof.
+  intros H. unfold gS. destruct (Rlt_dec eta t) as [Ht|Ht].
+  - rewrite (lt_ind_lt eta t Ht), (lt_ind_lt eta u) by lra. lra.
+  - rewrite (lt_ind_ge eta t) by lra. unfold lt_ind. destruct (Rltb eta u); lra.
+Qed.
+
+Lemma elem_strict_subgrad_quantile_p a eta y t c : 0 < a < 1 -> t <= c ->
+  elem_val_strict (V_quantile a) eta y c - elem_val_strict (V_quantile a) eta y t
+    >= (gS eta c - gS eta t) * Vp_q a y t.
+Proof.
+  intros Ha Htc. unfold elem_val_strict, gS, V_quantile, Vp_q.
+  destruct (Rlt_dec eta t) as [Het|Het].
+  - rewrite (lt_ind_lt eta t Het), (lt_ind_lt eta c) by lra. lra.
+  - rewrite (lt_ind_ge eta t) by lra.
+    destruct (Rlt_dec eta c) as [Hec|Hec].
+    + rewrite (lt_ind_lt eta c Hec).
+      (* t <= eta < c: need 1{eta >= y} >= 1{t >= y} *)
+      destruct (Rle_dec y t) as [Hyt|Hyt].
+      * rewrite (ge_ind_ge t y Hyt), (ge_ind_ge eta y) by lra. lra.
+      * rewrite (ge_ind_lt t y) by lra. unfold ge_ind. destruct (Rleb y eta); lra.
+    + rewrite (lt_ind_ge eta c) by lra. lra.
+Qed.
+
+Lemma elem_strict_subgrad_quantile_m a eta y t c : 0 < a < 1 -> c <= t ->
+  elem_val_strict (V_quantile a) eta y c - elem_val_strict (V_quantile a) eta y t
+    >= (gS eta c - gS eta t) * Vm_q a y t.
+Proof.
+  intros Ha Hct. unfold elem_val_strict, gS, V_quantile, Vm_q.
+  destruct (Rlt_dec eta c) as [Hec|Hec].
+  - rewrite (lt_ind_lt eta c Hec), (lt_ind_lt eta t) by lra. lra.
+  - rewrite (lt_ind_ge eta c) by lra.
+    destruct (Rlt_dec eta t) as [Het|Het].
+    + rewrite (lt_ind_lt eta t Het).
+      (* c <= eta < t: need 1{eta >= y} <= 1{t > y} *)
+      destruct (Rle_dec y eta) as [Hye|Hye].
+      * assert (Hyt : y < t) by lra.
+        rewrite (ge_ind_ge eta y Hye), (proj2 (Rltb_true y t) Hyt). lra.
+      * rewrite (ge_ind_lt eta y) by lra. destruct (Rltb y t); lra.
+    + rewrite (lt_ind_ge eta t) by lra. lra.
+Qed.
+
+(* FULL consistency for quantiles: every eta, data values included *)
+Theorem elem_consistent_quantile : forall a eta S t c,
+  0 < a < 1 -> Forall (fun e => 0 < snd e) S ->
+  wsumV (Vm_q a) S t <= 0 -> 0 <= wsumV (Vp_q a) S t ->
+  wtotal (elem_val_strict (V_quantile a) eta) S t
+    <= wtotal (elem_val_strict (V_quantile a) eta) S c.
+Proof.
+  intros a eta S t c Ha Hw Hm Hp.
+  destruct (Rle_dec t c) as [Htc | Htc].
+  - pose proof (wtotal_subgrad (elem_val_strict (V_quantile a) eta) (Vp_q a)
+                  (fun _ => True) (gS eta c - gS eta t) t c
+                  (fun y _ => elem_strict_subgrad_quantile_p a eta y t c Ha Htc)
+                  S Hw (Forall_True_fst S)) as Hs.
+    pose proof (gS_mono eta t c Htc) as Hg.
+    assert (HK : 0 <= gS eta c - gS eta t) by lra.
+    pose proof (prod_nonneg_pp _ _ HK Hp) as Hn.
+    lra.
+  - assert (Hct : c <= t) by lra.
+    pose proof (wtotal_subgrad (elem_val_strict (V_quantile a) eta) (Vm_q a)
+                  (fun _ => True) (gS eta c - gS eta t) t c
+                  (fun y _ => elem_strict_subgrad_quantile_m a eta y t c Ha Hct)
+                  S Hw (Forall_True_fst S)) as Hs.
+    pose proof (gS_mono eta c t Hct) as Hg.
+    assert (HK : gS eta c - gS eta t <= 0) by lra.
+    pose proof (prod_nonneg_mm _ _ HK Hm) as Hn.
+    lra.
+Qed.
+
+Print Assumptions elem_strict_nonneg_quantile.
+Print Assumptions elem_consistent_quantile.
 
 Print Assumptions expectile_consistent.
 Print Assumptions quantile_consistent.
